@@ -235,6 +235,14 @@ def stat_predicate(prog, sl, f, call, fates, _depth=0):
 #   * the value is matched and an Err arm continues: every CFG path from the Err arm to a success site must cross an
 #     edge that confines the error to a variant carrying no I/O error (a TOML parse error) or to ErrorKind::NotFound.
 # Everything else is a violation (a success path exists for an I/O failure) or unproven (shape not recognised).
+#
+# "Success outcome" is stated on what the function's result *means*, not on how it is spelt (`_chosen_outcomes`):
+#   * `Result<..>`: every definition of the return value other than `Err(..)` / `from_residual`;
+#   * an integer that is only ever the process exit status (`exit(run(..))`, `exit_code_fn`): every definition other than a
+#     non-zero constant — `return CODE` inside `run` is `exit(CODE)` in place (mutants C12-r4-single-exit-status-*);
+#   * `Option<Result<..>>` (element closures of `filter_map` / `map_while`): every definition other than `Some(Err(..))`;
+#     `Some(result)` keeps the Result inside the carrier, whose consumer R5 judges (mutants C12-r4-process-dirs-closure-*);
+#   * anything else: every return.
 
 from .lib.mir import op_const, const_value
 from .lib.value import walk
@@ -278,15 +286,22 @@ class ErrFlow:
         self._succ = {}
         self._deleters = {}
         self._errlocal = {}
+        self._exitfn = {}
 
     # ---- success blocks of a function: where it commits to a non-error outcome
     def success_blocks(self, f):
         if f.path in self._succ:
             return self._succ[f.path]
         from .lib.effects import success_sites
-        out = {s.bb for s in success_sites(f)}
-        if not f.ret.startswith('std::result::Result<'):
-            out |= set(f.return_blocks())
+        chosen = self._chosen_outcomes(f)
+        if chosen is not None:
+            # the function's return value *is* its outcome (an exit status / an Option<Result> element): it succeeds
+            # where that value is chosen to be something other than a failure
+            out = set(chosen)
+        else:
+            out = {s.bb for s in success_sites(f)}
+            if not f.ret.startswith('std::result::Result<'):
+                out |= set(f.return_blocks())
         for c in f.calls:
             if not c.indirect and c.is_(EXIT) and c.args:
                 v = const_value(op_const(c.args[0])) if op_const(c.args[0]) else None
@@ -298,18 +313,99 @@ class ErrFlow:
                 # `let code = match r { Ok(c) => c, Err(e) => { on_error(e); 1 } }; exit(code)`: the process succeeds
                 # where the exit code is *chosen* to be something other than a non-zero constant
                 pl = op_place(c.args[0])
-                defs = list(_origin_defs(f, pl[0])) if pl and len(pl) == 1 else []
-                if defs and all(d[0] in ('stmt', 'call') for d in defs):
-                    for d in defs:
-                        if d[0] == 'stmt' and d[3]['r'] == 'use' and op_const(d[3]['o']) and _nonzero(const_value(op_const(d[3]['o']))):
-                            continue
-                        if d[0] == 'call' and self._fallback_exit_code(f, d[3]):
-                            continue     # r.unwrap_or_else(|e| { on_error(e); NONZERO }): decided at that call
-                        out.add(d[1])
-                else:
-                    out.add(c.bb)
+                chosen = self._status_choices(f, pl[0], c.bb) if pl and len(pl) == 1 else None
+                out |= chosen if chosen is not None else {c.bb}
         self._succ[f.path] = out
         return out
+
+    def _failing_status(self, f, d):
+        """the definition `d` of an exit status is a failure: a non-zero constant, or
+        `r.unwrap_or_else(|e| { on_error(e); NONZERO })` (decided at that call)"""
+        if d[0] == 'stmt':
+            v = strip(self.sl._rvalue(f, d[3], set(), 0, None))
+            return v[0] == 'const' and _nonzero(v[1])
+        return d[0] == 'call' and self._fallback_exit_code(f, d[3])
+
+    def _status_choices(self, f, local, use_bb):
+        """blocks in which the exit status held in `local` (consumed in `use_bb`: `exit(local)` / `return local`) is
+        *chosen* to be something other than a failure; None: not decidable from its definitions.
+        `let code = match r { Ok(c) => c, Err(e) => { on_error(e); 1 } }; exit(code)`: the process succeeds in the Ok arm.
+        When no definition is a failure the consuming block itself is a success site too — the status may have been
+        chosen before the Result was inspected (`let mut code = 0; if let Err(e) = r { log(e) } exit(code)`)."""
+        defs = list(_origin_defs(f, local))
+        if not defs or not all(d[0] in ('stmt', 'call') for d in defs):
+            return None
+        out = {d[1] for d in defs if not self._failing_status(f, d)}
+        if len(out) == len({d[1] for d in defs}):
+            out.add(use_bb)
+        return out
+
+    INT_TYPES = ('i8', 'i16', 'i32', 'i64', 'i128', 'isize', 'u8', 'u16', 'u32', 'u64', 'u128', 'usize')
+
+    def exit_code_fn(self, g):
+        """`fn run(..) -> i32` whose value is only ever the process exit status: a private function every call site of
+        which hands the returned integer to `process::exit` (through moves, or by returning it from a function of the
+        same kind).  `exit(run(..))` with `return CODE` inside `run` is `exit(CODE)` in place."""
+        if g.path in self._exitfn:
+            return self._exitfn[g.path]
+        self._exitfn[g.path] = False
+        ok = False
+        if g.ret in self.INT_TYPES and g.kind != 'Closure' and g.vis != 'pub' and not g.derived:
+            sites = self.prog.callers().get(g.path, ())
+            ok = bool(sites)
+            for c in sites:
+                if c.indirect or not any(h is g for h in self.prog.callee_fns(c)) or not c.dest or len(c.dest) != 1:
+                    ok = False      # handed on as a fn item / stored: the integer's meaning is not known
+                    break
+                if list(c.dest) == [0]:
+                    if not (c.fn is not g and self.exit_code_fn(c.fn)):
+                        ok = False
+                        break
+                elif not self.exit_code_local(c.fn, c.dest[0]):
+                    ok = False
+                    break
+        self._exitfn[g.path] = ok
+        return ok
+
+    def _chosen_outcomes(self, f):
+        """blocks in which `f` chooses a *success* value for a return value that is itself the outcome; None when the
+        return value is not of that kind (the ordinary success sites apply).
+        * an exit-code function (`exit_code_fn`): every definition of the returned integer other than a non-zero
+          constant (and other than `r.unwrap_or_else(|e| {..; NONZERO})`, decided at that call);
+        * a function / closure returning `Option<Result<_, E>>` (the element function of `filter_map` / `map_while`,
+          a helper around `Iterator::next`): every definition other than `Some(Err(..))` — `None` (element skipped,
+          end of stream) and `Some(Ok(..))` are successes, `Some(<a Result>)` passes that Result on (R5 checks the
+          consumer of the carrier)."""
+        if self.exit_code_fn(f):
+            out = set()
+            for d in f.whole_defs(0):
+                if d[0] not in ('stmt', 'call'):
+                    return None
+                src = op_place(d[3]['o']) if d[0] == 'stmt' and d[3]['r'] == 'use' else None
+                if src and len(src) == 1 and src[0] > f.argc and f.whole_defs(src[0]):
+                    chosen = self._status_choices(f, src[0], d[1])      # `_0 = move code`
+                    if chosen is None:
+                        return None
+                    out |= chosen
+                elif not self._failing_status(f, d):
+                    out.add(d[1])
+            return out
+        if f.ret.startswith('std::option::Option<std::result::Result<'):
+            defs = list(f.whole_defs(0))
+            if not defs or not all(d[0] in ('stmt', 'call') for d in defs):
+                return None
+            out = set()
+            for d in defs:
+                if d[0] == 'stmt':
+                    v = strip(self.sl._rvalue(f, d[3], set(), 0, None))
+                    if v[0] == 'agg' and v[2] == 'Some' and (v[1] or '').endswith('option::Option'):
+                        payload = dict(v[3]).get('0', dict(v[3]).get(0))
+                        p = strip(payload) if payload is not None else None
+                        if p is not None and p[0] == 'agg' and p[2] == 'Err' and (p[1] or '').endswith('result::Result'):
+                            continue
+                out.add(d[1])
+            return out
+        return None
 
     MUTATING = ('std::fs::write', 'std::fs::create_dir', 'std::fs::create_dir_all', 'std::fs::set_permissions',
                 'std::fs::rename', 'std::fs::copy', 'std::fs::hard_link', 'std::fs::File::create', 'std::fs::File::create_new',
@@ -338,7 +434,10 @@ class ErrFlow:
         return False
 
     def exit_code_local(self, f, local, depth=0):
-        """every use of the local is `process::exit(local)` (possibly through moves)"""
+        """every use of the local is `process::exit(local)` (possibly through moves, or as the return value of a
+        function whose value is only ever an exit status)"""
+        if local == 0:
+            return self.exit_code_fn(f)
         uses = [u for u in f.uses_of(local) if u[1] != 'drop']
         if not uses or depth > 4:
             return False
@@ -561,6 +660,15 @@ class ErrFlow:
                         continue
                     if rv['r'] == 'ref' and len(target) == 1:
                         results.append(self._ref_uses(f, target[0], origin, sinks, depth))
+                        continue
+                    if rv['r'] == 'agg' and (rv.get('adt') or '').endswith('option::Option') and rv.get('variant') == 'Some' \
+                            and how in ('m', 'c') and len(target) == 1:
+                        # `Some(result)`: the Result travels on inside an Option (the element of a `filter_map` /
+                        # `map_while` closure, `Iterator::next` of a hand-written stream): Err stays Err inside the carrier
+                        if list(target) == [0]:
+                            sinks.add(bi)      # returned: the consumer of the carrier is a site of R5
+                        else:
+                            results.append(self.option(f, [target[0]], origin, depth + 1))
                         continue
                     results.append(('unproven', 'the Result is used in rvalue %s' % rv['r']))
                 elif kind == 'arg':
@@ -1094,7 +1202,7 @@ def _option_flow(self, f, root, origin=None, depth=0):
     if depth > 6:
         return ('unproven', 'nesting too deep')
     results, aliases, work = [], [], [list(root)]
-    payload_seen = False
+    payload_seen = returned = False
     while work:
         P = work.pop()
         if P in aliases:
@@ -1117,6 +1225,7 @@ def _option_flow(self, f, root, origin=None, depth=0):
                     continue
                 if not rest and rv['r'] in ('use', 'cast') and how in ('m', 'c'):
                     if list(target) == [0]:
+                        returned = True
                         continue     # returned: the caller's call site is a carrier of its own
                     if len(target) == 1:
                         work.append([target[0]])
@@ -1137,6 +1246,8 @@ def _option_flow(self, f, root, origin=None, depth=0):
                 results.append(('unproven', 'the Option<Result> is handed to %s' % c2.name))
             else:
                 results.append(('unproven', 'the Option<Result> is used as %s' % kind))
+    if not results and returned:
+        return ('ok', 'the Option<Result> is returned: its consumer is a carrier site of its own')
     if not results:
         return ('violated', 'the Option<Result> is never inspected: an element error is dropped')
     return worst(results)
